@@ -669,9 +669,18 @@ def run(prop, tier):
                 "C09": ["MC_q_c09a.cfg", "MC_q_c09b.cfg"]}
     mc = quick_mc[prop] if tier == "quick" else sorted(set(["MC_quick.cfg", "MC_small.cfg", "MC_live.cfg", "MC_2p_fl.cfg",
                                                           "MC_2p_nofl.cfg"] + quick_mc[prop]))
+    if prop == "C04":
+        mc = mc + ["MC_credit_quick.cfg" if tier == "quick" else "MC_credit.cfg"]
     for cfg in ([] if vlib.SKIP_MC else mc):
         r = vlib.model_check(SPECD, "BackgroundQueue", cfg, timeout=7200, heap="24g" if tier == "thorough" else "8g")
         chk.add_model("BackgroundQueue/" + cfg, r)
+    if prop == "C04" and not vlib.SKIP_MC:
+        # non-vacuity of EbwExact (bounded progress of the whole writer loop): a model in which drain passes
+        # ending with a rejected entry are not credited against the batch must violate it
+        r = vlib.model_check(SPECD, "BackgroundQueue", "MC_neg_credit.cfg", expect_ok=False, timeout=600)
+        if not r.invariant_violated:
+            raise vlib.ToolError("MC_neg_credit.cfg: the under-counting model does not violate EbwExact (invariant vacuous?)")
+        chk.extra["negative_models_rejected"] = ["BackgroundQueue/MC_neg_credit.cfg (EbwExact)"]
     # 2. recorded executions of the real code against the property layer
     rng = random.Random(chk.seed * 7919 + int(prop[1:]))
     scen = GEN[prop](rng, NSCEN[tier][prop])
